@@ -89,7 +89,7 @@ func solveOne(ob *Obligation, dir string, quick, full time.Duration, twoUnsat bo
 	file := filepath.Join(dir, sanitize(ob.Name)+fmt.Sprintf("_%d.smt2", hashString(ob.Name)))
 	os.WriteFile(file, []byte(ob.Script+"(get-model)\n"), 0o644)
 	defer func() {
-		if ob.Status == "discharged" {
+		if ob.Status == "discharged" && os.Getenv("GOVC_KEEP") == "" {
 			os.Remove(file)
 		}
 	}()
